@@ -67,6 +67,14 @@ func c14Mut(r *rng, id string) {
 	payload := r.bytes(n)
 	if (n+1)%16 == 0 && r.chance(2, 3) {
 		payload[n-1] = 1
+		if n >= 6 && r.chance(1, 2) {
+			// padding that is wrong by one byte: the last p-1 bytes say p, the byte before them does not
+			pad := 2 + r.intn(4)
+			for j := 1; j < pad; j++ {
+				payload[n-j] = byte(pad)
+			}
+			payload[n-pad] = byte(pad + 1)
+		}
 	}
 	path := []string{"pkt", "str"}[r.intn(2)]
 	if src == "stallremove" {
@@ -219,4 +227,7 @@ func TestC14(t *testing.T) {
 		n = envInt("VERIF_N", 8000)
 	}
 	forCases(n, 141, "m", func(i int, r *rng, id string) { c14Mut(r, id) })
+	// a key being retired while another is installed (and every other pair of keyring calls at once): the
+	// retired key must be gone afterwards - judged against both sequential orders of the keyring model
+	forCases(12, 142, "c", func(i int, r *rng, id string) { krConcP("C14", r, id) })
 }
